@@ -78,6 +78,9 @@ func ProbeC10NL() {
 // DebugCase returns the text and expected File of case i under the loaded script.
 func DebugCase(i int) ([]byte, bebop.File) {
 	symBudget = 1
+	if Deep {
+		symBudget = 2
+	}
 	defs, docs := Case(i)
 	st := styleFor(docs, 1)
 	return Print(defs, st), Want(defs, st)
